@@ -11,6 +11,7 @@ pub mod c08;
 pub mod c09;
 pub mod c10;
 pub mod c10_e2e;
+pub mod c11;
 pub mod c12;
 pub mod c13;
 pub mod c14;
@@ -24,7 +25,7 @@ pub mod c20;
 pub type RunFn = fn(&RunCfg, Option<&str>) -> i32;
 
 pub fn all() -> Vec<(&'static str, RunFn)> {
-    vec![("C03", c03::run as RunFn), ("C16", c16::run as RunFn), ("C05", c05::run as RunFn), ("C02", c02::run as RunFn), ("C20", c20::run as RunFn), ("C09", c09::run as RunFn), ("C10", c10::run as RunFn), ("C08", c08::run as RunFn), ("C07", c07::run as RunFn), ("C12", c12::run as RunFn), ("C15", c15::run as RunFn), ("C13", c13::run as RunFn), ("C14", c14::run as RunFn), ("C19", c19::run as RunFn), ("C06", c06::run as RunFn), ("C04", c04::run as RunFn), ("C17", c17::run as RunFn), ("C01", c01::run as RunFn), ("C18", c18::run as RunFn)]
+    vec![("C03", c03::run as RunFn), ("C16", c16::run as RunFn), ("C05", c05::run as RunFn), ("C02", c02::run as RunFn), ("C20", c20::run as RunFn), ("C09", c09::run as RunFn), ("C10", c10::run as RunFn), ("C08", c08::run as RunFn), ("C07", c07::run as RunFn), ("C12", c12::run as RunFn), ("C15", c15::run as RunFn), ("C13", c13::run as RunFn), ("C14", c14::run as RunFn), ("C19", c19::run as RunFn), ("C06", c06::run as RunFn), ("C04", c04::run as RunFn), ("C17", c17::run as RunFn), ("C01", c01::run as RunFn), ("C18", c18::run as RunFn), ("C11", c11::run as RunFn)]
 }
 
 /// Entry point of child processes (`harness <ID> --child <seed>`).
@@ -35,6 +36,7 @@ pub fn child(id: &str, seed: u64) -> i32 {
         "C10" => c10_e2e::child(seed),
         "C06" => c06::child(seed),
         "C01" => c01::child(seed),
+        "C11" => c11::child(seed),
         _ => {
             eprintln!("no child mode for {}", id);
             2
